@@ -29,7 +29,8 @@ assert len(MASTER_XPRV) == 111 and len(UNKNOWN) == 111
 WORDS = {"12-words": 12, "15-words": 15, "18-words": 18, "21-words": 21, "24-words": 24, "11-words": 11, "13-words": 13, "25-words": 25}
 VEC12 = "legal winner thank year wave sausage worth useful legal winner thank yellow"
 
-ACCOUNT = {"0": "0", "5": "5", "2^31-2": str(2 ** 31 - 2), "2^31-1": str(2 ** 31 - 1), "2^31": str(2 ** 31), "-1": "-1", "x": "x"}
+ACCOUNT = {"0": "0", "5": "5", "2^31-2": str(2 ** 31 - 2), "2^31-1": str(2 ** 31 - 1), "2^31": str(2 ** 31), "-1": "-1", "x": "x",
+           "+5": "+5", " 7": " 7", "1_0": "1_0"}
 BOUND = {"-1": "-1", "0": "0", "1": "1", "3": "3", "2^31-1": str(2 ** 31 - 1), "2^31": str(2 ** 31), "2^31+1": str(2 ** 31 + 1),
          "2^32-2": str(2 ** 32 - 2), "2^32-1": str(2 ** 32 - 1), "x": "x"}
 FILE = {"absent": "out.json", "existing": "exist.json", "dir": "adir", "symlink-to-file": "lnk", "dangling-symlink": "dang",
